@@ -29,8 +29,23 @@ def main():
     scratch = vlib.scratch_dir(pid)
     try:
         mod.run(ck, scratch)
-    except Exception:
+    except Exception as exc:
         traceback.print_exc()
+        # An exception that comes out of the implementation (a frame inside the repository under
+        # test) on an input the harness generated as valid is a verdict, not an infrastructure
+        # failure: the unchanged tree answers every such input, so the code now raises where the
+        # property promises a result.  Anything else is a failure of the harness itself.
+        repo = os.path.realpath(vlib.REPO) + os.sep
+        frames = traceback.extract_tb(exc.__traceback__)
+        in_repo = [f for f in frames if os.path.realpath(f.filename).startswith(repo)]
+        if in_repo and not isinstance(exc, (MemoryError, KeyboardInterrupt)):
+            last = in_repo[-1]
+            ck.violation('the implementation raised %s at %s:%d (%s) on an input of the check\'s valid stream; '
+                         'the run stopped there' % (type(exc).__name__, os.path.relpath(last.filename, repo), last.lineno, last.name),
+                         {'seed': ck.seed, 'tier': a.tier, 'traceback': traceback.format_exc().splitlines()[-25:]},
+                         clause='%s (uncaught exception of the implementation)' % pid)
+            vlib.rm_scratch(scratch)
+            sys.exit(ck.finish())
         print('INFRASTRUCTURE FAILURE in the harness for %s (no verdict)' % pid)
         vlib.rm_scratch(scratch)
         sys.exit(2)
